@@ -84,6 +84,7 @@ class Monitor:
         self.cur_session = None
         self.cur_session_idx = -1
         self.cmp_budget = 4000
+        self.retain = True  # False when the run has no logger: nothing may keep log objects alive
         self.ext: Dict[str, Any] = {}  # per-property extension state (see oracles_*.py)
         self.plugins: List[Any] = []
 
@@ -147,7 +148,7 @@ class Monitor:
         if market.market_id == self.markets[0].market_id or t > self.now:
             self.now = max(self.now, t)
         # C04: every order due has expired exactly now; nothing else did
-        if "C04" in self.on or "C10" in self.on:
+        if "C04" in self.on or "C10" in self.on or market.logger is None:
             due = [o for o in list(mm.buy.values()) + list(mm.sell.values())
                    if o.ttl is not None and o.placed_at + o.ttl < t]
             for o in due:
@@ -155,6 +156,11 @@ class Monitor:
                 still = any(x.order_id == o.oid for x in book.priority_queue)
                 if still:
                     self.viol("C04", "expiry_missing", {"market": mm.name, "order": o.brief(), "now": t})
+                elif market.logger is None:
+                    # a run without a logger: the expiry cannot be reported; the model follows the book
+                    self.stat("expiries_unlogged_run")
+                    if o.obj is not None and "C04" in self.on and o.obj.volume != o.rem:
+                        self.viol("C04", "order_object_volume", {"market": mm.name, "order": o.brief(), "obj_volume": o.obj.volume})
                 else:  # it left the book, but no expiry record was written
                     self.viol("C10", "expiry_not_logged", {"market": mm.name, "order": o.brief(), "now": t})
                     self.viol("C04", "expiry_not_reported", {"market": mm.name, "order": o.brief(), "now": t})
@@ -464,6 +470,12 @@ class Monitor:
                 self.viol("C01", "price_above_buy_limit", {"market": mm.name, "price": log.price, "buy": b.brief(), "sell": s.brief()})
             if not s.is_mkt and log.price < s.price:
                 self.viol("C01", "price_below_sell_limit", {"market": mm.name, "price": log.price, "buy": b.brief(), "sell": s.brief()})
+            # the limit the trader handed to the market (after hooks, before tick rounding) binds as well
+            eps = REL * max(abs(log.price), mm.tick)
+            if not b.is_mkt and b.sub_price is not None and log.price > b.sub_price + eps:
+                self.viol("C01", "price_above_submitted_buy_limit", {"market": mm.name, "price": log.price, "submitted": b.sub_price, "buy": b.brief()})
+            if not s.is_mkt and s.sub_price is not None and log.price < s.sub_price - eps:
+                self.viol("C01", "price_below_submitted_sell_limit", {"market": mm.name, "price": log.price, "submitted": s.sub_price, "sell": s.brief()})
         if ("C06" in self.on or "C10" in self.on) and log.time != market.get_time():
             self.viol("C06", "fill_time", {"market": mm.name, "log": log.time, "now": market.get_time()})
             self.viol("C10", "execution_log_fields", {"market": mm.name, "time": log.time, "now": market.get_time()})
@@ -504,6 +516,15 @@ class Monitor:
         if rnd is None:
             return
         seen = rnd["fills"]
+        if market.logger is None:
+            # a run without a logger: the returned list is the only channel; feed the model by value
+            for lg in logs:
+                self.in_round = rnd
+                self.on_execution_log(lg, via_bulk=True)
+                self.in_round = None
+            rnd["fills"] = []
+            if logs:
+                self.after_book_event(market, mm, "fill")
         # the fills returned by the round and the fills reported to the logger are the same objects
         if market.logger is not None and ("C10" in self.on or True):
             ids_seen = [id(x) for x in seen]
@@ -514,8 +535,9 @@ class Monitor:
                     self.viol("C10", "fill_not_logged", {"market": mm.name, "n": len(missing)})
                     for lg in missing:  # keep the model in step
                         self.in_round = rnd
-                        self.seen_logs[id(lg)] = "ret"
-                        self.keepalive.append(lg)
+                        if self.retain:
+                            self.seen_logs[id(lg)] = "ret"
+                            self.keepalive.append(lg)
                         self.on_execution_log(lg, via_bulk=True)
                         self.in_round = None
                 extra = [x for x in seen if id(x) not in set(ids_ret)]
